@@ -58,10 +58,70 @@ def step (d : DSt) (line : String) : DSt × String :=
       ({ d with s := s' }, s!"rel {id} noop {render s'}{flag s'}")
   | _ => (d, "bad-op")
 
+end Driver.C15
+
+/-! ### Trace inclusion (domain C15s): replay a log produced by the real guard under genuine
+    concurrency.  A line is answered `ok` iff the model can take the same step with the same
+    observable values (issued ID, head at acquisition, effectiveness of a release). -/
+namespace Driver.C15
+open Hv.Guard
+
+structure TSt where
+  cfg : Cfg
+  s : St
+  /-- guard ID → session that announced (`pre`) it is about to release its hold -/
+  pending : List (Nat × Nat)
+
+def sidOfId (s : St) (id : Nat) : Option Nat :=
+  -- the most recent session that was given this ID
+  (s.issued.reverse.find? (·.2 == id)).map (·.1)
+
+def tstep (t : TSt) (line : String) : TSt × String :=
+  let s := t.s
+  let fl (s : St) := flag s
+  match words line with
+  | ["case", _] => ({ t with s := init, pending := [] }, line)
+  | ["enq", n] =>
+    match n.toNat? with
+    | some id =>
+      let s' := enqueue s
+      if s'.counter == id then ({ t with s := s' }, "ok" ++ fl s')
+      else ({ t with s := s' }, s!"bad enq: model would issue {s'.counter}")
+    | none => (t, "bad-op")
+  | ["acq", n] =>
+    match n.toNat? with
+    | some id => if headId s == some id then (t, "ok" ++ fl s) else (t, s!"bad acq: model head is {repr (headId s)}")
+    | none => (t, "bad-op")
+  | ["pre", _, n] =>
+    match n.toNat? with
+    | some id =>
+      match sidOfId s id with
+      | some sid => ({ t with pending := (id, sid) :: t.pending }, "ok" ++ fl s)
+      | none => (t, "bad pre: ID never issued in the model")
+    | none => (t, "bad-op")
+  | ["rel", n, e] =>
+    match n.toNat? with
+    | some id =>
+      let who := t.pending.lookup id
+      let s' := releaseId t.cfg s id who
+      let eff := headId s == some id
+      let want := if eff then "eff" else "noop"
+      let t' := { t with s := s', pending := t.pending.filter (·.1 != id) }
+      if want == e then (t', "ok" ++ fl s') else (t', s!"bad rel: model says {want}")
+    | none => (t, "bad-op")
+  | ["hang"] => (t, "bad hang: a waiter was never woken")
+  | _ => (t, "bad-op")
+
+def runTrace (cfg : Cfg) : IO UInt32 := do
+  lineLoop tstep { cfg := cfg, s := init, pending := [] }
+  return 0
+
 def run (args : List String) : IO UInt32 := do
   let kv := parseArgs args
   let cfg : Cfg := { resetsIdOnEmpty := arg kv "resetsIdOnEmpty" == "yes" }
-  lineLoop step { cfg := cfg, s := init }
-  return 0
+  if arg kv "mode" == "trace" then runTrace cfg
+  else do
+    lineLoop step { cfg := cfg, s := init }
+    return 0
 
 end Driver.C15
